@@ -247,7 +247,13 @@ func (q *halfQ) write(p []byte) (int, error) {
 		return 0, io.ErrClosedPipe
 	default:
 	}
-	q.ch <- append([]byte(nil), p...)
+	select {
+	case q.ch <- append([]byte(nil), p...):
+	case <-q.done:
+		// the other end closed while this writer was waiting for room
+		simrt.Yield("h:q-write")
+		return 0, io.ErrClosedPipe
+	}
 	simrt.Yield("h:q-write")
 	return len(p), nil
 }
